@@ -22,6 +22,13 @@ class BcashSolutionChecker(BitcoinSolutionChecker):
             tx_out_script, unsigned_txs_out_idx, hash_type
         )
 
+    def _delete_signature(self, script: bytes, sig_blob: bytes) -> bytes:
+        # Bitcoin Cash does not remove a signature that carries the fork-id bit
+        # from the script code it commits to (there is no FindAndDelete step)
+        if sig_blob and sig_blob[-1] & SIGHASH_FORKID:
+            return script
+        return super()._delete_signature(script, sig_blob)
+
     def _signature_for_hash_type_segwit(self, script: bytes, tx_in_idx: int, hash_type: int) -> int:
         # every digest goes through here, the witness-program path directly
         if hash_type & SIGHASH_FORKID != SIGHASH_FORKID:
